@@ -82,10 +82,12 @@ def vec_run(prop, tier, seed, plan, interesting, assumptions, extra_cov=None):
                 shard_files.append(sf)
             with cf.ThreadPoolExecutor(14) as ex:
                 futs = {}
-                for (f, ty, b) in item["replays"]:
+                for rp in item["replays"]:
+                    f, ty, b = rp[:3]
+                    extra = ["--special"] if len(rp) > 3 and rp[3] == "special" else []
                     for si, sf in enumerate(shard_files):
                         futs[ex.submit(vlib.run_vh, ["vecreplay", "--in", sf, "--format", f, "--type", ty, "--k", str(item["K"]),
-                                                    "--block", str(b)])] = (f, ty, b, si)
+                                                    "--block", str(b)] + extra)] = (f, ty, b, si)
                 for fu in cf.as_completed(futs):
                     f, ty, b, si = futs[fu]
                     r = fu.result()
@@ -107,7 +109,7 @@ def vec_run(prop, tier, seed, plan, interesting, assumptions, extra_cov=None):
                         violations.append(v)
             runs.append({"kind": item["kind"], "K": item["K"], "PP": item["PP"], "MaxLen": item["MaxLen"], "Depth": item["Depth"],
                          "ops": item["ops"], "HistK": item.get("histk", 4), "design_states": d["distinct"], "asis_states": a["distinct"],
-                         "paths": len(paths), "replays": ["%s/%s/b%d" % r for r in item["replays"]]})
+                         "paths": len(paths), "replays": ["/".join(map(str, r)) for r in item["replays"]]})
         finally:
             shutil.rmtree(wd, ignore_errors=True)
     known_lines = []
@@ -160,6 +162,34 @@ def c03(prop, tier, seed):
     return vec_run(prop, tier, seed, plan,
                    "non-trivial = length >= 3 and at least one further operation after a re-import, reset or rollback",
                    VEC_ASSUME)
+
+
+@register("C07")
+def c07(prop, tier, seed):
+    ops_cmp = CMP_EDIT + ["write", "reimport", "reset"]
+    exact = {"u8": 8192, "i8": 8192, "u16": 4096, "i16": 4096, "u32": 2048, "i32": 2048, "f32": 2048, "u64": 1024, "i64": 1024, "f64": 1024}
+    sp = lambda f, t, d=0: (f, t, exact[t] + d, "special")
+    plan = [
+        # page-index well-formedness at the exact page scale and one element around it, every chunking of pushes / writes /
+        # truncations (into the raw page, into a compressed page, on a boundary) / re-imports up to 3 model pages
+        dict(kind="cmp", K=0, PP=2, MaxLen=5, MaxStamp=1, Depth=q(tier, 7, 8), ops=ops_cmp, histk=q(tier, 3, 4),
+             replays=[("pco", "u32", 2048), ("lz4", "u32", 2048), ("zstd", "u32", 2048), ("pco", "u64", 1024), ("lz4", "u16", 4096)]
+                     + q(tier, [], [("pco", "u32", 2047), ("lz4", "u64", 1025), ("zstd", "u64", 1024), ("pco", "u16", 4096)])),
+        # lossless round trip: extreme integers and special floating-point bit patterns, compared bit for bit
+        dict(kind="cmp", K=0, PP=2, MaxLen=5, MaxStamp=1, Depth=q(tier, 6, 7), ops=ops_cmp, histk=q(tier, 1, 2),
+             replays=[sp("pco", "f64"), sp("pco", "f32"), sp("pco", "i64"), sp("lz4", "f64"), sp("zstd", "f64"), sp("lz4", "u8"),
+                      sp("zstd", "f32", 1), sp("pco", "i16", -1)]
+                     + q(tier, [], [sp("pco", "u64"), sp("pco", "i32"), sp("lz4", "i64"), sp("lz4", "u16"), sp("zstd", "u8"),
+                                    sp("zstd", "i16"), sp("pco", "u16", 1), sp("pco", "f64", -1)])),
+        # commits and rollbacks also rewrite pages
+        dict(kind="cmp", K=2, PP=2, MaxLen=4, MaxStamp=3, Depth=q(tier, 6, 7), ops=CMP_EDIT + ["reimport", "commit", "rollback", "rollback_before"],
+             histk=q(tier, 1, 2), replays=[("pco", "u32", 2048), ("zstd", "u64", 1024)]),
+    ]
+    return vec_run(prop, tier, seed, plan,
+                   "non-trivial = length >= 3 (special-value runs) or a continuation after re-import/reset/rollback; the page index "
+                   "(start/bytes/count/raw per entry, data-region length) is read from the real regions after every successful write",
+                   VEC_ASSUME + ["bit-exact comparison uses a table of extreme integers / IEEE-754 special patterns (NaN payloads, +-0, "
+                                 "subnormals, infinities) followed by pseudo-random bit patterns; it is a harness-side oracle (shadow list)"])
 
 
 @register("C04")
